@@ -175,6 +175,8 @@ impl MatrixSlab {
             // safely: this allocation is valid for MATRIX_ALLOC_LAYOUT
             let (haystack, bonus, rows, current_row, matrix_cells) =
                 matrix_layout.fieds_from_ptr(self.0);
+            #[cfg(nucleo_verif)]
+            matrix_layout.verif_record(haystack, bonus, rows, current_row, matrix_cells);
             // copy haystack before creating references to ensure we don't create
             // references to invalid chars (which may or may not be UB)
             haystack_
@@ -188,6 +190,45 @@ impl MatrixSlab {
                 matrix_cells: &mut *matrix_cells,
             })
         }
+    }
+}
+
+#[cfg(nucleo_verif)]
+pub(crate) fn slab_size() -> usize {
+    size_of::<MatcherData>()
+}
+
+#[cfg(nucleo_verif)]
+impl MatrixSlab {
+    pub(crate) fn poison(&mut self, byte: u8) {
+        unsafe { self.0.as_ptr().write_bytes(byte, size_of::<MatcherData>()) }
+    }
+}
+
+#[cfg(nucleo_verif)]
+impl<C: Char> MatrixLayout<C> {
+    fn verif_record(
+        &self,
+        haystack: *mut [C],
+        bonus: *mut [u8],
+        rows: *mut [u16],
+        current_row: *mut [ScoreCell],
+        matrix_cells: *mut [MatrixCell],
+    ) {
+        use std::mem::align_of;
+        crate::verif::record_extents(crate::verif::Extents {
+            slab_size: size_of::<MatcherData>(),
+            haystack_len: self.haystack_len,
+            needle_len: self.needle_len,
+            char_size: size_of::<C>(),
+            views: [
+                (self.haystack_off, haystack.len() * size_of::<C>(), align_of::<C>()),
+                (self.bonus_off, bonus.len(), 1),
+                (self.rows_off, rows.len() * 2, align_of::<u16>()),
+                (self.score_off, current_row.len() * size_of::<ScoreCell>(), align_of::<ScoreCell>()),
+                (self.matrix_off, matrix_cells.len() * size_of::<MatrixCell>(), align_of::<MatrixCell>()),
+            ],
+        });
     }
 }
 
